@@ -34,7 +34,7 @@ def lset {α : Type} (l : List α) (i : Nat) (v : α) : List α := l.set i v
 inductive Kind where
   | recon   -- decode_tile_row : `sb_recon_completed_in_row` (uint32, memset 0, stores absolute sb_col + 1)
   | lf      -- dec_loop_filter_row : `sb_lf_completed_in_row` (int32, memset -1, stores x_sb_index)
-  | cdef    -- svt_cdef_sb_row_mt : `cdef_completed_in_row` (uint32, memset 0, stores sb_fbc)
+  | cdef    -- svt_cdef_sb_row_mt : `cdef_completed_in_row` (uint32, memset 0, stores sb_fbc + 1 = number of SBs done)
   | lr      -- dec_av1_loop_restoration_filter_row : `sb_lr_completed_in_row` (int32, memset -1, stores sb_col_y)
 deriving Repr, BEq, DecidableEq, Inhabited
 
@@ -57,10 +57,11 @@ def initCtr : Kind → Int
   | .lr => -1
 
 /-- value stored after column `j` (EbDecProcessFrame.c:120 `sb_col + 1`; EbDecLF.c:746 `x_sb_index`;
-    EbDecCdef.c:586 `sb_fbc`; EbDecRestoration.c:468 `sb_col_y`) -/
+    EbDecCdef.c:587 `(uint32_t)(sb_fbc + 1)`; EbDecRestoration.c:468 `sb_col_y`) -/
 def pubVal (s : Stage) (j : Nat) : Int :=
   match s.kind with
   | .recon => (s.c0 + j + 1 : Nat)
+  | .cdef => (j + 1 : Nat)
   | _ => (j : Nat)
 
 /-- `nsync` of the CDEF / LR loops: 1 until the last column is reached, then 0 (EbDecCdef.c:523-524,
@@ -71,13 +72,14 @@ def nsync (s : Stage) (j : Nat) : Nat := if j + 1 = s.W then 0 else 1
     * recon  `while (*sb_completed_in_prev_row < MIN((sb_col + 2), tile_wd_in_sb)) ;`   EbDecProcessFrame.c:114
              (`sb_col`, `tile_wd_in_sb` absolute: `c0 + j`, `c0 + W`; int32 comparison)
     * lf     `while (*sb_lf_completed_in_prev_row < MIN((x_sb_index + 2), pic_width_in_sb - 1)) ;`  EbDecLF.c:729 (int32)
-    * cdef   `while (*cdef_completed_in_prev_row < (sb_fbc + nsync)) ;`   EbDecCdef.c:525 (uint32 comparison)
+    * cdef   `while (*cdef_completed_in_prev_row < (uint32_t)(sb_fbc + 1) + nsync) ;`   EbDecCdef.c:526 (uint32 comparison;
+             before commit c7d082d the test was `< (sb_fbc + nsync)` on a counter that stored `sb_fbc`: no wait at all for W = 1)
     * lr     `while (*sb_lr_completed_in_prev_row < (sb_col_y + nsync)) ;`   EbDecRestoration.c:322 (int32) -/
 def pass (s : Stage) (j : Nat) (v : Int) : Bool :=
   match s.kind with
   | .recon => ! decide (v < ((min (s.c0 + j + 2) (s.c0 + s.W) : Nat) : Int))
   | .lf => ! decide (v < min ((j : Int) + 2) ((s.W : Int) - 1))
-  | .cdef => ! decide (v.toNat < j + nsync s j)
+  | .cdef => ! decide (v.toNat < j + 1 + nsync s j)
   | .lr => ! decide (v < ((j + nsync s j : Nat) : Int))
 
 /-- phase of one row -/
